@@ -6,6 +6,7 @@ import (
 	"fmt"
 	"math"
 	"math/big"
+	"strings"
 
 	"github.com/makiuchi-d/gozxing"
 	"github.com/makiuchi-d/gozxing/common"
@@ -1010,11 +1011,32 @@ func (s *c19Setup) data(img *c19Img) map[string]interface{} {
 func c19SampleAndCheck(r *fw.Rec, s *c19Setup, img *c19Img, class string) bool {
 	exp := c19Expected(s.h, s.dimX, s.dimY, img)
 	sampler := common.GridSampler_GetInstance()
-	for _, api := range []string{"SampleGrid", "SampleGridWithTransform"} {
+	for _, api := range []string{"SampleGrid", "SampleGridWithTransform", "SampleGridWithTransform(second call, same transform)"} {
 		before := verifhook.OOBReads()
 		var bits *gozxing.BitMatrix
 		var err error
-		if api == "SampleGrid" {
+		if strings.HasSuffix(api, ")") {
+			// the transform is the caller's object: sampling through it twice gives the same
+			// answer twice, and it still maps the same points afterwards
+			t := c19Q2Q(s.src, s.dst)
+			probe := func() []float64 {
+				p := []float64{0.5, 0.5, float64(s.dimX) - 0.5, 0.5, float64(s.dimX) / 2, float64(s.dimY) / 2, 0, float64(s.dimY)}
+				t.TransformPoints(p)
+				return p
+			}
+			p0 := probe()
+			sampler.SampleGridWithTransform(img.bm, s.dimX, s.dimY, t)
+			p1 := probe()
+			for i := range p0 {
+				if p0[i] != p1[i] && !(p0[i] != p0[i] && p1[i] != p1[i]) {
+					r.Violation("model-mismatch", "SampleGridWithTransform:changes-the-callers-transform", fmt.Sprintf("after SampleGridWithTransform %dx%d the caller's transform maps the probe points to %v, before the call to %v", s.dimX, s.dimY, p1, p0), s.data(img))
+					return false
+				}
+			}
+			before = verifhook.OOBReads()
+			bits, err = sampler.SampleGridWithTransform(img.bm, s.dimX, s.dimY, t)
+			r.Tally("calls_second_call_same_transform")
+		} else if api == "SampleGrid" {
 			bits, err = sampler.SampleGrid(img.bm, s.dimX, s.dimY,
 				s.src[0][0], s.src[0][1], s.src[1][0], s.src[1][1], s.src[2][0], s.src[2][1], s.src[3][0], s.src[3][1],
 				s.dst[0][0], s.dst[0][1], s.dst[1][0], s.dst[1][1], s.dst[2][0], s.dst[2][1], s.dst[3][0], s.dst[3][1])
@@ -1694,6 +1716,7 @@ func c19(c *fw.Ctx) {
 	c.Floor("calls_matrix_compared_image_black", 100)
 	c.Floor("calls_matrix_compared_image_noise", 100)
 	c.Floor("calls_beyond_band_notfound", 100)
+	c.Floor("calls_second_call_same_transform", 1000)
 	c.Floor("direct_beyond_band_notfound", 500)
 	for _, p := range c19Passes {
 		for _, b := range c19Bands {
